@@ -25,6 +25,9 @@ PLACEMENTS = {
     "the iterable of a second comprehension clause": "return [z for y in xs for z in {C}(y, ys)]",
     "a generator expression iterable": "return sum(y for y in {C}(xs, ys))",
     "a dict comprehension iterable": "return {{k: 1 for k in {C}(xs, ys)}}",
+    "a comprehension iterable, after a nested comprehension": "return [y for y in ([q for q in xs], {C}(xs, ys))]",
+    "the condition of a comprehension that is itself an iterable": "return [y for y in [q for q in xs if {C}(q, ys)]]",
+    "the element of a comprehension that is itself an iterable": "return [y for y in [{C}(q, ys) for q in xs]]",
     "a lambda body": "return (lambda a: {C}(a, ys))(xs)",
     "a conditional expression": "return {C}(xs, ys) if xs else {C}(ys, xs)",
     "an f-string": "return f'{{{C}(xs, ys)}}'",
